@@ -435,7 +435,7 @@ func ftpCorpus() [][]Op {
 	S := func(p, d string) Op { return Op{V: "STOR", P: hx.B(p), Data: hx.B(d)} }
 	return [][]Op{
 		{P("MKD", "../escaped-dir"), S("../../b", "overwrite"), P("DELE", "../b"), P("RMD", "../a/a"), P("RNFR", "a/b"), P("RNTO", "../../stolen")},
-		{P("RETR", "../b"), P("NLST", ".."), P("LIST", "/../.."), P("SIZE", "../b"), P("MDTM", "../../a/b"), P("RETR", "/../SENTINEL-d/a")},
+		{{V: "REST", Z: -100}, P("RETR", "../b"), {V: "REST", Z: -100}, P("RETR", "b"), P("NLST", ".."), P("LIST", "/../.."), P("SIZE", "../b"), P("MDTM", "../../a/b"), P("RETR", "/../SENTINEL-d/a")},
 		{P("RMD", "a/a/b"), P("RMD", "a/a"), P("DELE", "a/b"), P("RMD", "a"), P("DELE", "b"), P("RMD", "/"), P("MKD", "/"), S("/a", "x"), P("NLST", "")},
 		{P("DELE", "a/a/b"), P("DELE", "a/a"), P("DELE", "a/b"), P("DELE", "a"), P("DELE", "b"), P("DELE", "/"), S("/", "root-as-file"), P("RETR", "/"), P("MKD", "a")},
 		{P("RNTO", "x"), P("RNFR", "/"), P("RNTO", "a/x"), P("RNFR", "a"), P("RNTO", "a"), P("RNFR", "b"), P("RNTO", "b"), P("RNFR", "a"), P("RNTO", "a/a/x")},
@@ -562,8 +562,8 @@ func runFtpPart(o hx.Opts, r *hx.Rand, w window, out, header string, all []strin
 			N := func(v, p string) Op { return Op{V: v, P: hx.B(p)} }
 			seqs = append(seqs, cwdOps,
 				// escape attempts through the working directory
-				[]Op{up, pwd, up, up, pwd, N("NLST", ""), N("RETR", "b"), N("RETR", "../b")},
-				[]Op{C("../.."), pwd, C("/../.."), pwd, C("../../a"), pwd, N("NLST", ".."), N("RETR", "../b"), N("RETR", "../../b")},
+				[]Op{up, pwd, up, up, pwd, N("NLST", ""), {V: "REST", Z: -100}, N("RETR", "b"), {V: "REST", Z: -100}, N("RETR", "../b")},
+				[]Op{C("../.."), pwd, C("/../.."), pwd, C("../../a"), pwd, N("NLST", ".."), {V: "REST", Z: -100}, N("RETR", "../b"), {V: "REST", Z: -100}, N("RETR", "../../b")},
 				[]Op{C("a/a"), up, up, up, pwd, N("RETR", "../b"), C("../.."), N("NLST", ".."), N("MKD", "../../escaped-dir"), pwd},
 				[]Op{C("a/a/b"), pwd, C("../../../../../a/b"), pwd, C("../../../.."), pwd, {V: "STOR", P: hx.B("../../b"), Data: hx.B("overwrite")}, N("DELE", "../../../b")},
 				[]Op{C("a"), N("RNFR", "b"), N("RNTO", "../../../stolen"), pwd, up, N("NLST", ""), C("../ftp"), C("../SENTINEL-d"), C("/../a/a"), pwd},
